@@ -41,7 +41,21 @@ pub fn generate(seed: u64, cases: usize, out: &mut Vec<String>) {
                 0 => out.push(format!("sess scan {}", k)),
                 1 | 2 => out.push(format!("sess scanl {} {}", k, r.below(3))),
                 3 => out.push(format!("sess gn {} {}", k, if nn == 0 { 0 } else { r.below(nn + 1) })),
-                4 => out.push(format!("sess out {} {}", k, if nn == 0 { 0 } else { r.below(nn) })),
+                4 => {
+                    let n = if nn == 0 { 0 } else { r.below(nn) };
+                    match r.below(4) {
+                        0 => out.push(format!("sess out {} {}", k, n)),
+                        1 => out.push(format!("sess in {} {}", k, n)),
+                        2 => {
+                            if r.chance(1, 3) {
+                                out.push(format!("sess qsp {} {} {}", k, r.below(3), r.below(3)));
+                            } else {
+                                out.push(format!("sess qexp {} {} {} -", k, n, r.pick(&["o", "i"])));
+                            }
+                        }
+                        _ => out.push(format!("sess qexp {} {} {} {}", k, n, r.pick(&["o", "i"]), r.below(2))),
+                    }
+                }
                 5 => out.push(format!("sess ge {} {}", k, if ne == 0 { 0 } else { r.below(ne + 1) })),
                 _ => out.push("sess count".into()),
             }
@@ -126,7 +140,9 @@ pub fn generate(seed: u64, cases: usize, out: &mut Vec<String>) {
         for n in 0..nn.min(10) {
             out.push(format!("sess gn 0 {}", n));
             out.push(format!("sess out 0 {}", n));
+            out.push(format!("sess in 0 {}", n));
         }
+        out.push(format!("sess adj {}", nn.min(12)));
         out.push("sess count".into());
     }
 }
@@ -328,6 +344,62 @@ pub fn run(st: &mut SessSt, args: &[&str]) -> String {
                 v.sort_unstable();
                 if v.is_empty() { "-".into() } else { v.iter().map(|(a, b)| format!("{}.{}", a, b)).collect::<Vec<_>>().join(",") }
             }
+            ["in", k, n] => {
+                let k = sess(st, k);
+                let mut v: Vec<(u64, u64)> = st.sessions[&k]
+                    .get_neighbors_incoming(NodeId::new(n.parse().unwrap()))
+                    .into_iter()
+                    .map(|(o, e)| (o.as_u64(), e.as_u64()))
+                    .collect();
+                v.sort_unstable();
+                if v.is_empty() { "-".into() } else { v.iter().map(|(a, b)| format!("{}.{}", a, b)).collect::<Vec<_>>().join(",") }
+            }
+            ["qexp", k, n, dir, ty] => {
+                let k = sess(st, k);
+                let t = if *ty == "-" { String::new() } else { format!(":T{}", ty) };
+                let q = if *dir == "o" {
+                    format!("MATCH (a)-[e{}]->(b) WHERE id(a) = {} RETURN id(b), id(e)", t, n)
+                } else {
+                    format!("MATCH (a)<-[e{}]-(b) WHERE id(a) = {} RETURN id(b), id(e)", t, n)
+                };
+                match st.sessions[&k].execute(&q) {
+                    Ok(res) => {
+                        let mut v: Vec<(u64, u64)> = res
+                            .rows
+                            .iter()
+                            .map(|r| match (&r[0], &r[1]) {
+                                (Value::Int64(a), Value::Int64(b)) => (*a as u64, *b as u64),
+                                other => panic!("unexpected row {:?}", other),
+                            })
+                            .collect();
+                        v.sort_unstable();
+                        if v.is_empty() { "-".into() } else { v.iter().map(|(a, b)| format!("{}.{}", a, b)).collect::<Vec<_>>().join(",") }
+                    }
+                    Err(e) => format!("query-error:{}", e),
+                }
+            }
+            ["qsp", k, x, y] => {
+                let k = sess(st, k);
+                let q = format!("MATCH p = shortestPath((a:L{})-[*]->(b:L{})) RETURN length(p)", x, y);
+                match st.sessions[&k].execute_cypher(&q) {
+                    Ok(res) => {
+                        let mut nums: Vec<i64> = Vec::new();
+                        let mut nulls = 0;
+                        for r in &res.rows {
+                            match &r[0] {
+                                Value::Int64(i) => nums.push(*i),
+                                Value::Null => nulls += 1,
+                                other => panic!("unexpected length {:?}", other),
+                            }
+                        }
+                        nums.sort_unstable();
+                        let mut parts: Vec<String> = nums.iter().map(|i| i.to_string()).collect();
+                        parts.extend(std::iter::repeat("N".to_string()).take(nulls));
+                        if parts.is_empty() { "norows".into() } else { parts.join(",") }
+                    }
+                    Err(e) => format!("query-error:{}", e),
+                }
+            }
             ["scanl", k, l] => {
                 let k = sess(st, k);
                 match st.sessions[&k].execute(&format!("MATCH (n:L{}) RETURN id(n)", l)) {
@@ -341,6 +413,23 @@ pub fn run(st: &mut SessSt, args: &[&str]) -> String {
                     Ok(res) => ids_of_rows(&res.rows),
                     Err(e) => format!("query-error:{}", e),
                 }
+            }
+            // the raw adjacency indexes (GrafeoDB::store()): entries per node id below n, both directions
+            ["adj", n] => {
+                let n: u64 = n.parse().unwrap();
+                let store = st.db.store();
+                let mut parts = Vec::new();
+                for id in 0..n {
+                    let mut o: Vec<(u64, u64)> = store.edges_from(NodeId::new(id), grafeo_core::graph::Direction::Outgoing).map(|(a, b)| (a.as_u64(), b.as_u64())).collect();
+                    let mut i: Vec<(u64, u64)> = store.edges_from(NodeId::new(id), grafeo_core::graph::Direction::Incoming).map(|(a, b)| (a.as_u64(), b.as_u64())).collect();
+                    o.sort_unstable();
+                    i.sort_unstable();
+                    if !o.is_empty() || !i.is_empty() {
+                        let f = |v: &Vec<(u64, u64)>| v.iter().map(|(a, b)| format!("{}.{}", a, b)).collect::<Vec<_>>().join(",");
+                        parts.push(format!("{}>{}<{}", id, f(&o), f(&i)));
+                    }
+                }
+                if parts.is_empty() { "none".into() } else { parts.join(";") }
             }
             ["count"] => format!("{}", st.db.node_count()),
             _ => "bad-op".into(),
